@@ -281,13 +281,65 @@ func c01Script(sc *L1Scenario, tier int) {
 	}
 }
 
+// one case per run (three in thorough): 70 bridges; deposits, donations, proposals and claims on ids
+// 1, 2, 65, 66 (ids congruent modulo 64); the tracked escrow ACCOUNTS are the documented
+// addresses derived in the harness, so a shared or mis-derived escrow shows in the ledger
+func c01ManyBridges(emit func(build L1Builder), tier int) {
+	n := 1
+	if tier == 1 {
+		n = 3
+	}
+	for k := 0; k < n; k++ {
+		emit(func(sc *L1Scenario) {
+			e, r := sc.Env, sc.R
+			ids := []uint64{1, 2, 65, 66}
+			sc.Case.Track.Bridges = ids
+			sc.Case.Track.Accts = []uint64{1, 2, 3, 4, 5, 6, 7, ModGov, ModDistr, EscrowBase + 1, EscrowBase + 2, EscrowBase + 65, EscrowBase + 66}
+			period := sec
+			for b := 1; b <= 70; b++ {
+				if _, ok := sc.CreateStd(1, uint64(2+b%6), period); !ok {
+					return
+				}
+			}
+			trees := map[uint64]*ProposedTree{}
+			for _, b := range ids {
+				for i, d := range sc.Denoms[:2] {
+					sc.DepositOp(e.User(uint64(2+i)).Str, b, "l2recipient", d, int64(300+10*int(b%64)+r.Intn(50)), nil)
+				}
+				sc.do(L1Op{Kind: "send", FromID: uint64(1 + r.Intn(6)), ToID: EscrowBase + b, Denom: sc.Denoms[0], Amt: big.NewInt(int64(1 + r.Intn(40)))})
+				var ws []Withdrawal
+				for q := 0; q < 3; q++ {
+					ws = append(ws, Withdrawal{Bridge: b, Seq: uint64(q + 1), From: "l2user", To: e.User(uint64(1 + r.Intn(6))).Str, Denom: sc.Denoms[r.Intn(2)], Amt: big.NewInt(int64(1 + r.Intn(40)))})
+				}
+				if pt, ok := sc.ProposeTree(b, sc.customTree(b, ws)); ok {
+					trees[b] = pt
+				}
+			}
+			sc.Advance(2 * period)
+			for round := 0; round < 12; round++ {
+				b := ids[r.Intn(len(ids))]
+				switch r.Intn(3) {
+				case 0:
+					if pt := trees[b]; pt != nil {
+						sc.ClaimAt(pt, r.Intn(3), b, pt.Idx, e.User(uint64(1+r.Intn(6))).Str)
+					}
+				case 1:
+					sc.DepositOp(e.User(uint64(1+r.Intn(6))).Str, b, "l2recipient", sc.Denoms[r.Intn(2)], int64(1+r.Intn(90)), nil)
+				case 2:
+					sc.do(L1Op{Kind: "send", FromID: uint64(1 + r.Intn(6)), ToID: EscrowBase + b, Denom: sc.Denoms[r.Intn(2)], Amt: big.NewInt(int64(1 + r.Intn(40)))})
+				}
+			}
+		})
+	}
+}
+
 func genC01(seed uint64, tier, outdir string) *Report {
 	w := DefaultL1Weights
 	w.Create, w.Deposit, w.Propose, w.Delete, w.Claim, w.Send, w.Params = 8, 22, 16, 12, 26, 10, 4
 	return runMoneyStream(MoneyStream{Prop: "C01", Weights: w, NRandom: [2]int{18, 200}, Len: [2]int{60, 140},
 		Scripts: []func(*L1Scenario, int){c01Script}, NScript: [2]int{18, 200},
-		Monitors: []L1Monitor{c01Monitor, provenLeafMonitor("C01"), doublePayMonitor("C01")},
-		Prep:     moneyPrep, Spice: (*L1Scenario).variantStep, SpicePct: 10,
+		Monitors: []L1Monitor{c01Monitor, provenLeafMonitor("C01"), doublePayMonitor("C01")}, Extra: c01ManyBridges,
+		Prep: moneyPrep, Spice: (*L1Scenario).variantStep, SpicePct: 10,
 		Rule: "a case is one multi-bridge L1 history on a fresh instance (scripted cross-bridge replay scenario plus random tail, or fully random); distinct by hash of the op list; non-trivial = at least one finalization accepted and at least one rejected"},
 		seed, tier, outdir)
 }
